@@ -56,6 +56,15 @@ type Run struct {
 	exhaustive   bool
 	nextIndex    int
 	deadline     time.Time
+	hangs        []Hang
+}
+
+// Hang is an execution that did not reach quiescence within the real-time watchdog.
+type Hang struct {
+	Index       int    `json:"index"`
+	Fingerprint string `json:"fingerprint"`
+	What        string `json:"what"`
+	Case        any    `json:"case"`
 }
 
 // Thorough reports whether the thorough tier was requested.
@@ -231,6 +240,7 @@ type result struct {
 	Inconclusive []string       `json:"inconclusive"`
 	Exhaustive   bool           `json:"exhaustive"`
 	NextIndex    int            `json:"next_index"`
+	Hangs        []Hang         `json:"hangs"`
 	WallS        float64        `json:"wall_s"`
 	Complete     bool           `json:"complete"`
 }
@@ -248,7 +258,7 @@ func (r *Run) flush(complete bool) {
 	res := result{Prop: r.Prop, Tier: r.Tier, Shard: r.Shard, NShards: r.NShards,
 		Evaluations: r.evaluations, Transitions: r.transitions, States: len(r.states),
 		Nontrivial: len(r.nontrivial), Samples: r.samples, Caps: r.caps, Notes: r.notes,
-		Inconclusive: r.inconclusive, Exhaustive: r.exhaustive && complete, NextIndex: r.nextIndex,
+		Inconclusive: r.inconclusive, Exhaustive: r.exhaustive && complete, NextIndex: r.nextIndex, Hangs: r.hangs,
 		WallS: time.Since(r.began).Seconds(), Complete: complete}
 	keys := make([]string, 0, len(r.failures))
 	for k := range r.failures {
@@ -311,4 +321,27 @@ func (r *Run) DecodeReplay(v any) {
 	if err := json.Unmarshal(r.Replay, v); err != nil {
 		r.T.Fatalf("cannot decode replay case: %v", err)
 	}
+}
+
+// Guard runs one execution under a real-time watchdog. If it expires (a goroutine spins,
+// or waits on something synctest does not consider durable) the hang is journalled, the
+// partial result is flushed and the process exits with status 3; bin/check restarts the
+// shard after this case.
+func (r *Run) Guard(idx int, limit time.Duration, fingerprint, what string, c any, f func()) {
+	done := make(chan struct{})
+	go func() {
+		select {
+		case <-done:
+		case <-time.After(limit):
+			r.mu.Lock()
+			r.hangs = append(r.hangs, Hang{Index: idx, Fingerprint: fingerprint, What: what, Case: c})
+			r.nextIndex = idx + 1
+			r.exhaustive = false
+			r.mu.Unlock()
+			r.flush(false)
+			os.Exit(3)
+		}
+	}()
+	f()
+	close(done)
 }
